@@ -27,6 +27,16 @@
 (*                                         computations (residual band)    *)
 (*  boxreal lo, hi, pts, pc, qs, qc, cp, nan   seeded real boxes (2^-16)   *)
 (*                                                                         *)
+(* Binary magnitude (round 2): every line also carries the exponents of its  *)
+(* case (all zero for the cases at magnitude 1): inputs were mantissa *      *)
+(* 2^exponent, outputs are mantissas in the unit 2^exponent declared by the  *)
+(* case.  rot/rotax/rotq: ve, ae, ru; mat1: re, ce, ae, du, iu, ve, mu;      *)
+(* mat2: ea, eba, ebm, au, pu; trs/mesh: te, se, ve, ru; box*: be; res /     *)
+(* boxreal: e, ue.  UnitsBad checks that the declared units are the ones     *)
+(* Algebra.tla assigns (otherwise Harness.Shape); the mantissas are then     *)
+(* judged by the same exact predicates as at magnitude 1.  "Scaled.*"        *)
+(* count the lines judged at a magnitude other than 1.                       *)
+(*                                                                         *)
 (* State: l (line number), box (the box of the running box history, as     *)
 (* observed after the previous line: the model re-synchronises on the      *)
 (* observation so one defect does not cascade), cnt (how often each        *)
@@ -48,7 +58,9 @@ Preds == {"C17.QuatRotate", "C17.QuatLength", "C17.QuatCompose", "C17.QuatAxisAn
           "C17.BoxNew", "C17.BoxEncapsulate", "C17.BoxTight", "C17.BoxContains", "C17.BoxClosest",
           "C17.QuatLengthReal", "C17.QuatComposeReal", "C17.QuatAxisFixed", "C17.RotationToReal", "C17.RotationToNear",
           "C17.MatInverseReal", "C17.MatMulAssoc", "C17.MatDetMul", "C17.MatAddReal",
-          "C17.TRSReal", "C17.MeshReal", "C17.BoxReal", "Harness.Shape"}
+          "C17.TRSReal", "C17.MeshReal", "C17.BoxReal", "Harness.Shape",
+          "Scaled.rot", "Scaled.rotax", "Scaled.rotq", "Scaled.mat1", "Scaled.mat1inv", "Scaled.mat2", "Scaled.trs",
+          "Scaled.mesh", "Scaled.box", "Scaled.real"}
 
 NoBox == Box(<<1, 1, 1>>, <<0, 0, 0>>)
 
@@ -188,7 +200,28 @@ JudgeBoxReal(ln) ==
                     /\ \A k \in 1..3 : Abs(ln.cp[i][k] - BoxClamp(ob, ln.qs[i])[k]) <= Tol
     IN [bad |-> If(~ok, "C17.BoxReal"), ex |-> {"C17.BoxReal"}]
 
-Judge(ln) ==
+(* ------------------------- binary magnitude: units ------------------------ *)
+LineUsesS(ln) == IF ln.k = "trs" THEN ln.ctor \in {"New", "Scale"} ELSE ln.op \in {"Scale", "ApplyTRS"}
+UnitsBad(ln) ==
+    CASE ln.k = "rot" -> ln.ae # 0 \/ ln.ru # ScaleRot(ln.ve).ru
+      [] ln.k \in {"rotax", "rotq"} -> ln.ru # ScaleRot(ln.ve).ru
+      [] ln.k = "mat1" -> [ae |-> ln.ae, du |-> ln.du, iu |-> ln.iu, ve |-> ln.ve, mu |-> ln.mu] # ScaleMat1(ln.re, ln.ce)
+      [] ln.k = "mat2" -> [eba |-> ln.eba, au |-> ln.au, pu |-> ln.pu] # ScaleMat2(ln.ea, ln.ebm)
+      [] ln.k \in {"trs", "mesh"} -> [te |-> ln.te, ru |-> ln.ru] # ScaleTRS(ln.se, ln.ve) \/ (~LineUsesS(ln) /\ ln.se # 0)
+      [] ln.k = "res" -> ln.law \in Preds /\ ln.ue # RealDeg(ln.law) * ln.e
+      [] ln.k = "boxreal" -> ln.ue # RealDeg("C17.BoxReal") * ln.e
+      [] OTHER -> FALSE
+AnyNonZero(t) == \E k \in DOMAIN t : t[k] # 0
+ScaledTag(ln, j) ==
+    CASE ln.k \in {"rot", "rotax", "rotq"} -> If(ln.ve # 0 \/ ln.ae # 0, "Scaled." \o ln.k)
+      [] ln.k = "mat1" -> IF AnyNonZero(ln.ae) THEN {"Scaled.mat1"} \cup If("C17.MatInverse" \in j.ex, "Scaled.mat1inv") ELSE {}
+      [] ln.k = "mat2" -> If(ln.ea # 0 \/ ln.ebm # 0, "Scaled.mat2")
+      [] ln.k \in {"trs", "mesh"} -> If(ln.se # 0 \/ ln.ve # 0, "Scaled." \o ln.k)
+      [] ln.k \in {"boxnew", "boxenc"} -> If(ln.be # 0, "Scaled.box")
+      [] ln.k \in {"res", "boxreal"} -> If(ln.e # 0, "Scaled.real")
+      [] OTHER -> {}
+
+JudgeKind(ln) ==
     CASE ln.k = "rot" -> JudgeRot(ln)
       [] ln.k = "rotax" -> JudgeRotAx(ln)
       [] ln.k = "rotq" -> JudgeRotQ(ln)
@@ -202,6 +235,10 @@ Judge(ln) ==
       [] ln.k = "res" -> JudgeRes(ln)
       [] ln.k = "boxreal" -> JudgeBoxReal(ln)
       [] OTHER -> [bad |-> {}, ex |-> {}]
+
+Judge(ln) ==
+    IF UnitsBad(ln) THEN [bad |-> {"Harness.Shape"}, ex |-> {}]
+    ELSE CHOOSE r \in {[bad |-> j.bad, ex |-> j.ex \cup ScaledTag(ln, j)] : j \in {JudgeKind(ln)}} : TRUE
 
 Init == l = 1 /\ box = NoBox /\ cnt = [p \in Preds |-> 0]
 
